@@ -24,6 +24,7 @@ DECIDES += (' DG2: the domain getter returns (knot[degree], knot[-(degree+1)]) p
 
 EVAL_CLASSES = ['CurveEvaluator', 'CurveEvaluatorRational', 'CurveEvaluator2', 'SurfaceEvaluator', 'SurfaceEvaluatorRational', 'SurfaceEvaluator2',
                 'VolumeEvaluator', 'VolumeEvaluatorRational']
+DECIDES += (' BF3 (shared with C03): the basis values the evaluators combine equal the Cox-de Boor polynomials on every span of the enumerated rational knot vectors.')
 
 
 def site(fi, node=None):
